@@ -505,6 +505,78 @@ fn setter_sequences(depth: usize) -> Vec<Vec<Setter>> {
     all
 }
 
+// ------------------------------------------------------------------------------------------
+// serialisation after a serialisation that failed: a sink that accepts only the first n bytes
+// (a transport buffer that is too small) makes the first attempt fail; what the same thread
+// serialises next must be what a thread that never failed serialises
+struct Stingy {
+    left: usize,
+}
+impl ciborium_io::Write for Stingy {
+    type Error = &'static str;
+    fn write_all(&mut self, data: &[u8]) -> Result<(), Self::Error> {
+        if data.len() > self.left {
+            self.left = 0;
+            return Err("sink full");
+        }
+        self.left -= data.len();
+        Ok(())
+    }
+    fn flush(&mut self) -> Result<(), Self::Error> {
+        Ok(())
+    }
+}
+fn after_failed_write(first: usize, second: usize, n: usize, json: bool) -> Vec<(String, String)> {
+    let pick = |k: usize| {
+        let c = Case { rp: (k % 3) as u8, counter: (k % 5) as u8, flags: [0x01u8, 0x05, 0x1d][k % 3], assign_flags: true, attested: (k % 2 == 1).then_some((1, 16)), ext: (k % 4) as u8, depth: 0, ext_len: None };
+        build(&c).map(|b| b.value)
+    };
+    let (Ok(a), Ok(b), Ok(b2)) = (pick(first), pick(second), pick(second)) else { return vec![] };
+    let ser = move |v: &AuthenticatorData| -> Result<Vec<u8>, String> {
+        if json {
+            serde_json::to_vec(v).map_err(|e| e.to_string())
+        } else {
+            let mut out = vec![];
+            ciborium::ser::into_writer(v, &mut out).map_err(|e| e.to_string())?;
+            Ok(out)
+        }
+    };
+    // on a thread of its own: the failed attempt, then the second value
+    let a2 = a;
+    let got = std::thread::spawn(move || {
+        par::catch(|| {
+            if json {
+                struct W(usize);
+                impl std::io::Write for W {
+                    fn write(&mut self, d: &[u8]) -> std::io::Result<usize> {
+                        if d.len() > self.0 {
+                            self.0 = 0;
+                            return Err(std::io::Error::other("sink full"));
+                        }
+                        self.0 -= d.len();
+                        Ok(d.len())
+                    }
+                    fn flush(&mut self) -> std::io::Result<()> {
+                        Ok(())
+                    }
+                }
+                let _ = serde_json::to_writer(W(n), &a2);
+            } else {
+                let _ = ciborium::ser::into_writer(&a2, Stingy { left: n });
+            }
+            ser(&b2)
+        })
+    })
+    .join();
+    let want = std::thread::spawn(move || ser(&b)).join();
+    match (got, want) {
+        (Ok(Ok(Ok(g))), Ok(Ok(w))) if g == w => vec![],
+        (Ok(Ok(g)), Ok(w)) => vec![("serialisation-after-failed-write-differs".into(), format!("after an attempt that failed in a sink accepting {n} bytes, the same thread serialises the next authenticator data as {:?} bytes; a thread that never failed writes {:?} bytes", g.as_ref().map(|x| x.len()), w.as_ref().map(|x| x.len())))],
+        (Ok(Err(p)), _) => vec![("panic-serialising".into(), p)],
+        _ => vec![("harness".into(), "serialisation thread died".into())],
+    }
+}
+
 pub fn run(ctx: &Ctx) -> Result<Run, String> {
     let cs = cases(ctx.tier);
     let mut stats = par::sweep_cases(&cs, ctx.threads, |c, st| {
@@ -520,6 +592,18 @@ pub fn run(ctx: &Ctx) -> Result<Run, String> {
         st.findings_from(eval_setters(q));
     });
     stats.merge(st2);
+    for first in 0..6usize {
+        for second in 0..6usize {
+            for n in [0usize, 1, 2, 10, 36, 37, 38, 60, 100] {
+                for json in [false, true] {
+                    stats.case(&(first, second, n, json, "after-failed-write"), true, "after-failed-write");
+                    for (k, d) in after_failed_write(first, second, n, json) {
+                        stats.finding(Finding::new(format!("kind={k}"), d, json!({"after_failed_write": {"first": first, "second": second, "n": n, "json": json}})));
+                    }
+                }
+            }
+        }
+    }
     // credential ids longer than 65535 bytes are refused at construction
     for l in [65536usize, 70000] {
         let (x, y) = xy();
@@ -554,6 +638,9 @@ pub fn replay(_ctx: &Ctx, case: &Value) -> Result<Vec<Finding>, String> {
             Ok(true) => vec![Finding::new("kind=overlong-credential-id-accepted", "accepted", case.clone())],
             Err(p) => vec![Finding::new("kind=panic-in-constructor", p, case.clone())],
         });
+    }
+    if let Some(a) = case.get("after_failed_write") {
+        return Ok(after_failed_write(a["first"].as_u64().unwrap_or(0) as usize, a["second"].as_u64().unwrap_or(0) as usize, a["n"].as_u64().unwrap_or(0) as usize, a["json"].as_bool().unwrap_or(false)).into_iter().map(|(k, d)| Finding::new(format!("kind={k}"), d, case.clone())).collect());
     }
     if let Some(q) = case.get("setters") {
         let q: Vec<Setter> = serde_json::from_value(q.clone()).map_err(|e| format!("bad C12 setter sequence: {e}"))?;
